@@ -253,7 +253,7 @@ def run(ctx):
 
     # 2. replay into the implementation ---------------------------------------------------
     try:
-        recs = drv.safe_map(cases + big)
+        recs, pool_info = drv.safe_map(cases + big)
     except BaseException:
         proc.kill()
         raise
@@ -265,7 +265,8 @@ def run(ctx):
     errs = {r["id"]: r["error"] for r in recs if "error" in r}
     notrun = [r["id"] for r in recs if "notrun" in r]
     if notrun and not errs:
-        raise Machinery("%d cases were not replayed although no case crashed" % len(notrun))
+        raise Machinery("%d cases were not replayed although no single case reproduced the crash of a replay worker" % len(notrun))
+    ctx.note("replay_pool", pool_info)
     good = [r for r in recs if "skip" not in r and "error" not in r and "notrun" not in r]
     small = [r for r in good if len(r["mesh"]) <= 60]
     large = [r for r in good if len(r["mesh"]) > 60]
@@ -299,6 +300,9 @@ def run(ctx):
             if rid in diag:
                 s["ring_failure"] = diag[rid].get("kind")
             ctx.violation(rid, clause, detail={"failed": sorted(cl), "diagnosis": diag.get(rid)}, replay=replay_of(rid), sig=s)
+
+    if pool_info["broken_chunks"] and not errs and not failed:
+        raise Machinery("a replay worker died or hung (%s) but no case reproduces it and every record is accepted" % pool_info)
 
     # 4. bookkeeping ---------------------------------------------------------------------------
     for r in good:
